@@ -32,7 +32,7 @@ PROPS = {
     },
     'C06': {
         'modules': ['OtterVerif.Props.C06', 'OtterVerif.Props.C06Conc'],
-        'engines': [seq(['mix', 'bound', 'expiry', 'deferred'], 320, 10000, lambda f: f['class'] in ('C06', 'events')),
+        'engines': [seq(['mix', 'bound', 'expiry', 'huge', 'deferred'], 400, 10000, lambda f: f['class'] in ('C06', 'events')),
                     # concurrent writers, changing maximum, both handlers logged: every written value reported exactly once by each
                     {'kind': 'unit', 'name': 'concevents', 'hcmd': 'conc-events', 'dcmd': 'concevents', 'quick': 120, 'thorough': 6000, 'chunk': 10, 'args': []}],
     },
